@@ -52,6 +52,14 @@ type baState struct {
 	sinceCb   int // bytes accepted since the last callback
 	haveCb    bool
 	wroteAtCb int
+	pending   []pendingCrossing
+}
+
+// pendingCrossing: a downward crossing seen while a write was waiting for its turn; it is a
+// violation only if that write fails (its bytes were never part of the amount).
+type pendingCrossing struct {
+	wid int
+	msg string
 }
 
 func c15Spec(mode modeSpec, th uint64, reenter bool, kills []killRule, pr bool, block bool) (*xferSpec, *[]*baState) {
@@ -98,14 +106,18 @@ func c15Spec(mode modeSpec, th uint64, reenter bool, kills []killRule, pr bool, 
 			if v > bs.threshold {
 				m.Failf("callback.spurious", "stream %d: callback invoked with buffered amount %d above the threshold %d", st.SID, v, bs.threshold)
 			}
+			// upper bound of what may have been added since the last callback: everything that has
+			// returned since then plus a write that is in progress now (whether an implementation
+			// counts that one from the call or from its acceptance)
 			m.mu.Lock()
-			wrote := m.wroteBytes[s] + m.inWrite[s]
+			completed := m.wroteBytes[s]
+			wrote := completed + m.inWrite[s]
 			m.mu.Unlock()
 			if bs.haveCb && bs.lastCbVal+uint64(bs.sinceCb)+uint64(wrote-bs.wroteAtCb) <= bs.threshold {
 				m.Failf("callback.spurious", "stream %d: second callback although the amount cannot have risen above the threshold %d in between (was %d, +%d written)", st.SID, bs.threshold, bs.lastCbVal, bs.sinceCb+wrote-bs.wroteAtCb)
 			}
 			bs.callbacks++
-			bs.haveCb, bs.lastCbVal, bs.sinceCb, bs.wroteAtCb = true, v, 0, wrote
+			bs.haveCb, bs.lastCbVal, bs.sinceCb, bs.wroteAtCb = true, v, 0, completed
 			m.Logf(fmt.Sprintf("callback sid=%d", st.SID), "buffered=%d", v)
 			if reenter {
 				s.SetBufferedAmountLowThreshold(bs.threshold)
@@ -176,22 +188,29 @@ func propC15(j *Job) {
 						if a == nil {
 							continue
 						}
-						want := unackedOf(a, bs.s.streamIdentifier) + m.inWrite[bs.s]
+						// the amount the property speaks of: accepted (= queued) and not yet acknowledged
+						truth := unackedOf(a, bs.s.streamIdentifier)
 						got := int(bs.s.bufferedAmount)
-						if got != want {
-							m.viol = append(m.viol, Violation{Oracle: "buffered.stream", Msg: fmt.Sprintf("stream %d: BufferedAmount=%d but %d user bytes are pending or unacknowledged (at %v)", bs.s.streamIdentifier, got, want, m.S.Now())})
+						// (a write in progress may already be counted: that is a legitimate view as
+						// long as the write goes on to be accepted; see the judgement of crossings)
+						if got != truth && got != truth+m.inWrite[bs.s] {
+							m.viol = append(m.viol, Violation{Oracle: "buffered.stream", Msg: fmt.Sprintf("stream %d: BufferedAmount=%d but %d user bytes are pending or unacknowledged (at %v)", bs.s.streamIdentifier, got, truth, m.S.Now())})
 						}
-						// while a (blocking) write is in progress its bytes are counted provisionally and
-						// taken back if it fails: crossings in such an interval are not judged
-						if m.inWrite[bs.s] > 0 {
-							bs.armed = false
-						} else if uint64(got) > bs.threshold {
+						if uint64(truth) > bs.threshold {
 							if !bs.armed {
 								bs.armed, bs.armedSeen = true, bs.callbacks
 							}
 						} else if bs.armed {
 							if bs.callbacks == bs.armedSeen {
-								m.viol = append(m.viol, Violation{Oracle: "callback.missing", Msg: fmt.Sprintf("stream %d: buffered amount fell from above the threshold %d to %d without a callback", bs.s.streamIdentifier, bs.threshold, got)})
+								msg := fmt.Sprintf("stream %d: the accepted and unacknowledged bytes fell from above the threshold %d to %d without a callback (BufferedAmount reads %d)", bs.s.streamIdentifier, bs.threshold, truth, got)
+								if m.inWrite[bs.s] > 0 {
+									// a write is waiting for its turn: if it ends up accepted, counting it from the
+									// start is a defensible reading and nothing was crossed; if it fails, its bytes
+									// were never part of the amount and the crossing was real
+									bs.pending = append(bs.pending, pendingCrossing{wid: m.inWriteID[bs.s], msg: msg + fmt.Sprintf(": hidden by the %d bytes of a blocked write that failed afterwards", m.inWrite[bs.s])})
+								} else {
+									m.viol = append(m.viol, Violation{Oracle: "callback.missing", Msg: msg})
+								}
 							}
 							bs.armed = false
 						}
@@ -235,6 +254,13 @@ func propC15(j *Job) {
 			}
 			spec.Final = func(m *Sim, x *Exec, r *xferResult) {
 				generalVerdicts(m, x, false)
+				for _, bs := range *states {
+					for _, pc := range bs.pending {
+						if m.failedWrite[bs.s][pc.wid] {
+							m.Failf("callback.missing", "%s", pc.msg)
+						}
+					}
+				}
 				if !r.Drained {
 					m.Failf("stall", "not drained: buffered A=%d", bufAmt(m.As[0]))
 				}
